@@ -207,6 +207,31 @@ func checkC02(R *Run) {
 			}
 		}
 		construct := it.fn + ": frame of " + fmt.Sprint(it.size) + " bytes"
+		// second idiom: binary.Read(stream, order, &frame) with frame the decoder's fixed-size struct — binary.Read
+		// itself does io.ReadFull into a buffer of exactly binary.Size(frame) bytes
+		if wr == nil {
+			done := false
+			for _, ci := range callsIn(fn) {
+				c, ok := ci.(*ssa.Call)
+				if !ok || calleeName(&c.Call) != "encoding/binary.Read" || len(c.Call.Args) != 3 {
+					continue
+				}
+				dt, _ := concreteBelowInterface(c.Call.Args[2])
+				st, _ := concreteBelowInterface(c.Call.Args[0])
+				if dt == nil || !strings.HasPrefix(it.decoder, "(*"+typeName(derefType(dt))+")") {
+					continue
+				}
+				size := fixedWireSize(derefType(dt))
+				R.check(size == it.size && isStreamType(st), "preamble-read", construct, P.ipos(c),
+					fmt.Sprintf("binary.Read of the %d-byte frame struct straight from the stream (reads exactly that many bytes)", size),
+					fmt.Sprintf("binary.Read into %s reads %d bytes, the frame has %d (stream source: %v)", typeName(derefType(dt)), size, it.size, isStreamType(st)))
+				done = true
+				break
+			}
+			if done {
+				continue
+			}
+		}
 		if wr == nil || rf == nil {
 			R.bad("preamble-read", construct, P.pos(fn.Pos()), "the frame is not read with io.ReadFull (or io.ReadAtLeast with min = len(buf)) and then decoded with "+it.decoder+" (accepted idiom: buf := make([]byte, N); io.ReadFull(r, buf); x.Write(buf))")
 			continue
@@ -495,6 +520,28 @@ func (R *Run) ruleFrameFeed() {
 			case "io.TeeReader":
 				dst, src = c.Args[1], c.Args[0]
 			default:
+				// a direct call of the decoder's Write hands over its argument in one piece; what must not happen is that
+				// the argument is what a single Read of a stream happened to return (buf[:n] with n from a Read)
+				if callee := c.StaticCallee(); callee != nil && callee.Name() == "Write" && callee.Signature.Recv() != nil && len(c.Args) == 2 && !isClientLibrary(fn) {
+					dname := typeName(derefType(callee.Signature.Recv().Type()))
+					if _, isDec := dec[dname]; isDec && fn != callee {
+						nFeed++
+						R.analysed(fname(fn))
+						partial := ""
+						if sl, ok := stripConv(c.Args[1]).(*ssa.Slice); ok && sl.High != nil {
+							if ex, ok := sl.High.(*ssa.Extract); ok {
+								if rc, ok := ex.Tuple.(*ssa.Call); ok && ex.Index == 0 {
+									if n := calleeName(rc.Common()); strings.HasSuffix(n, ".Read") || rc.Common().IsInvoke() && rc.Common().Method.Name() == "Read" {
+										partial = n
+									}
+								}
+							}
+						}
+						R.check(partial == "", "frame-feed", fmt.Sprintf("%s: %s.Write called directly #%d", fname(fn), dname, nCreateIn(fn, ci)), P.ipos(ci),
+							"the argument is handed over in one Write and is not the result of a single stream Read",
+							fmt.Sprintf("positional decoder %s is given buf[:n] with n returned by one %s: a frame split across TCP segments is rejected or mis-parsed", dname, partial))
+					}
+				}
 				continue
 			}
 			dt, _ := concreteBelowInterface(dst)
@@ -512,4 +559,37 @@ func (R *Run) ruleFrameFeed() {
 		}
 	}
 	R.floor("frame-feed", 2)
+}
+
+// fixedWireSize: the number of bytes encoding/binary reads for a value of type t (fixed-size integers, arrays and
+// structs of them); -1 when t has no fixed size.
+func fixedWireSize(t types.Type) int64 {
+	switch u := t.Underlying().(type) {
+	case *types.Basic:
+		switch u.Kind() {
+		case types.Int8, types.Uint8, types.Bool:
+			return 1
+		case types.Int16, types.Uint16:
+			return 2
+		case types.Int32, types.Uint32, types.Float32:
+			return 4
+		case types.Int64, types.Uint64, types.Float64:
+			return 8
+		}
+	case *types.Array:
+		if e := fixedWireSize(u.Elem()); e >= 0 {
+			return e * u.Len()
+		}
+	case *types.Struct:
+		n := int64(0)
+		for i := 0; i < u.NumFields(); i++ {
+			e := fixedWireSize(u.Field(i).Type())
+			if e < 0 {
+				return -1
+			}
+			n += e
+		}
+		return n
+	}
+	return -1
 }
